@@ -14,9 +14,24 @@ def run_hist_job(job):
     cfg = rf.Cfg(**job["cfg"])
     oracles = job["oracles"]
     opts = job.get("opts", {})
+    if "selfdesc" in oracles:
+        # this process has recorded another channel before - another element type, byte order, shape and rate
+        # (a recorder process usually writes several channels; nothing of one may leak into the files of the next)
+        ptop = core.new_scratch("primer")
+        try:
+            pcfg = rf.Cfg(**{**dict(cfg), "kind": "f" if cfg["kind"] != "f" else "i", "size": 4 if cfg["size"] != 4 else 8,
+                             "order": ">" if cfg["order"] == "<" else "<", "cplx": not cfg["cplx"], "nsub": cfg["nsub"] % 3 + 1,
+                             "n": cfg["n"] + 1, "uuid": "primer-channel-of-another-kind"})
+            os.makedirs(os.path.join(ptop, "other"))
+            pw = rf.open_writer(drf, os.path.join(ptop, "other"), pcfg)
+            pw.rf_write(rf.make_values(pcfg, seed, pcfg["start"], 3))
+            pw.close()
+        finally:
+            core.rm(ptop)
     for ops in job["hists"]:
         ops = [tuple(o) if not isinstance(o, tuple) else o for o in ops]
-        top = core.new_scratch(long_path=(part["evaluations"] % 4 == 1), via_symlink=(part["evaluations"] % 4 == 3))
+        top = core.new_scratch(long_path=(part["evaluations"] % 4 == 1), via_symlink=(part["evaluations"] % 4 == 3 and set(oracles) <= {"counters"}))  # (readers resolve their
+        # argument with os.path.abspath, which is documented to collapse 'link/..' lexically: writer-side oracles only)
         try:
             run = rfrun.execute(cfg, ops, seed, top, snapshot_rejects=opts.get("snapshot_rejects", False),
                                 sparse_getters=opts.get("sparse_getters", False))
